@@ -2,10 +2,12 @@
 EXTENDS MolEdit, Json
 Ids3 == {"a1", "a2", "a3"}
 Ids4 == {"a1", "a2", "a3", "a4"}
+Fr0 == <<>>
 Fr1 == <<"f1">>
 Fr2 == <<"f1", "f2">>
 QG == {"a1", "a3"}
 Fr3 == <<"f1", "f2", "f3">>
+AP0 == <<>>
 AP1 == <<"p1">>
 AllI == Ids4 \cup {"f1", "f2", "f3", "p1"}
 ElemM == [a \in AllI |-> CASE a = "a1" -> "O" [] a = "a2" -> "F" [] a = "a3" -> "O" [] a = "a4" -> "N" [] a = "p1" -> "X" [] OTHER -> "H"]
